@@ -283,6 +283,9 @@ func (d *db) close() error {
 
 	var err error
 	err = firstError(err, d.mu.logWriter.close())
+	// records written without a sync (commit only updates) must be durable before the
+	// index that describes them is saved, nobody syncs this log file after close
+	err = firstError(err, d.mu.logFile.Sync())
 	err = firstError(err, d.saveIndex())
 	// Note that versionSet.close() only closes the MANIFEST. The versions list
 	// is still valid for the checks below.
